@@ -7,6 +7,12 @@ ids = [json.loads(l)["id"] for l in open(os.path.join(ROOT, "properties.jsonl"))
 
 TECH = "deterministic whole-program simulation (std-facade substitution under a seeded scheduler) with fault injection; "
 CLAIMED = {
+    "C18": dict(
+        level="fault_enumeration", ref="DESIGN.md 5/C18",
+        text="The C06 histories (writes, removes, increments, incremental and reclaiming snapshots, restarts over 1-2 databases) run with NUN_STORAGE_STRATEGY=s3 and s3_patition (1, 3 and 10 partitions, fixed per worker process) against an in-process S3 stub served over a real loopback socket to the real aws-sdk-s3; each restart is compared key by key, version by version and for id/strategy with the state captured when the snapshot completed. Fault sequences per history: the n-th PUT of an object fails once (result must equal the fault-free one), every PUT fails (must be reported by an error log or a failed snapshot, keys must stay pending, and once the store recovers a completed snapshot must restore everything), the first GET fails (restart succeeds or fails loudly). Faults are sampled per history, not enumerated over every request.",
+        note="aws-sdk-s3/tokio/loopback socket are real and outside the scheduler (each SDK call is one atomic step); the S3 service is a stub; no crash between the PUTs of one snapshot",
+        technique=TECH + "restart comparison against the state at the last completed snapshot with request-level upload/download faults in an S3 stub",
+    ),
     "C08": dict(
         level="exploration", ref="DESIGN.md 5/C08",
         text="Non-interference by paired deterministic runs: each seeded case (a non-administrator session sending 1-6 commands from 30 templates x 10 secure/plain key arguments, interleaved with administrator writes and version conflicts on $$ keys) is simulated twice with the same seed and schedule, the two worlds differing only in the values stored under $$ keys; the low session's transcripts must be identical, no low command may change a $$ key and $$token must survive remove.",
